@@ -6,3 +6,6 @@ S = seg_common.pairs()
 PAIRS += [S[k] for k in ("reclaim_all", "abandoned_collect", "try_reclaim", "try_reclaim_k5", "attempt_reclaim")]
 import heap_collect_common as _hc
 PAIRS += [_hc.pair()]      # mi_heap_collect_ex: steps, force flags and order of a collection
+# the heap-level suitability test that segment.c calls: enforced on the real heap.c against the arena-level contract (itself enforced on arena.c above)
+PAIRS += [dict(name="heap_memid_suitable", entry="h_heap_suitable", harness="harness/heap_ops.c", enforce="_mi_heap_memid_is_suitable", replace=["_mi_arena_memid_is_suitable"],
+               label="P", functions=["_mi_heap_memid_is_suitable"], timeout=300, unwind=20)]
